@@ -458,3 +458,23 @@ func init() {
 		return 0
 	}
 }
+
+func init() {
+	// dbgdagbadger <scenario> <cache>: harvest the final DAG, run it on a default inmem reference and on a BadgerStore with the cache size
+	checks["dbgdagbadger"] = func(args []string) int {
+		sc := sched.ScenarioByName(args[0])
+		x := sched.NewExec(sc, nil)
+		x.NoDigest = true
+		for _, a := range sc.Seed {
+			x.Step(a)
+		}
+		evs := dag.Harvest(x.C)
+		n := sc.Cfg.N
+		x.Close()
+		ref := dag.Run(evs, dag.RunOpts{N: n, CacheSize: 10000})
+		v := dag.Run(evs, dag.RunOpts{N: n, CacheSize: atoi(args[1]), Badger: true, Dir: scratchDir()})
+		k, d := dag.CompareKind(ref, v, true)
+		fmt.Printf("%s: %d events; reference %d blocks (err %q); badger cache %s: %d blocks (err %q); compare [%s] %s\n", args[0], len(evs), len(ref.Blocks), ref.Err, args[1], len(v.Blocks), v.Err, k, d)
+		return 0
+	}
+}
